@@ -208,6 +208,16 @@ theorem C11_exact_witness : ¬ ExactStatement Cfg.pinned := by
   revert this
   decide
 
+/-- the same leak through `failed`: node `0` (upstream of the target `1`) raises, its `failed`
+signal is wired to the run input of the handler `2`, which executes during the pull as pinned and
+does not with the repair -/
+theorem C11_failed_signal_witness :
+    let w : World := { world0 with n := 3, g := mkG [(ch 2 0, ch 0 3)],
+                                   deps := fun i => if i = 1 then [0] else [], fails := fun i => i = 0 }
+    (pull Cfg.pinned w 1 false exIfObs 10).2 = .failed ∧
+      (pull Cfg.pinned w 1 false exIfObs 10).1.log = [0, 2] ∧
+      (pull Cfg.repaired w 1 false exIfObs 10).1.log = [0] := by decide
+
 /-- a macro `0` with children `2 → 1`; the macro's `ran` is wired to the parentless node `3` -/
 def exMac : World :=
   { world0 with n := 4, g := mkG [(ch 3 0, ch 0 2)],
@@ -350,6 +360,7 @@ end PwVerif.C11
 #print axioms PwVerif.C11.C11_exact_repaired
 #print axioms PwVerif.C11.C11_exact_partial
 #print axioms PwVerif.C11.C11_exact_witness
+#print axioms PwVerif.C11.C11_failed_signal_witness
 #print axioms PwVerif.C11.C11_parent_emits_witness
 #print axioms PwVerif.C11.C11_restored
 #print axioms PwVerif.C11.C11_refused_unchanged
